@@ -18,6 +18,8 @@ type job struct {
 	thoroughTimeout    time.Duration
 	maxResume          int
 	resumeAfterTimeout bool
+	memcapMB           int // resource-bound monitor in the worker (exit status 7)
+	stage              int // jobs of stage n+1 start after all jobs of stage n ended
 }
 
 func (j *job) timeout(tier string) time.Duration {
@@ -102,6 +104,42 @@ func init() {
 		})
 	plans["C18"] = std("finite float64 values placed with SetFloat into a parsed 512-element template and rendered by Iter.MarshalJSON and Iter.StringCvt; compared byte for byte with encoding/json.Marshal, and independently: strconv.ParseFloat(text) gives the identical bits, the number of significant digits equals that of strconv.FormatFloat(f,'e',-1,64), exponent form exactly outside [1e-6,1e21). Inputs: fixed hard cases, 10^k for k=-323..308 with both neighbours, the 1e-6/1e21 switches +-3 ulps, every binade (min, max, +-1, random), all 52 subnormal leading-bit positions, integers up to 2^63 scaled by powers of ten, 15-17 digit decimals, uniformly random bit patterns; NaN/+-Inf must give an error. Distinct non-trivial = distinct finite bit patterns", 16,
 		func(c, m map[string]int64) []string { return need(c, "non_finite_rejected", 3) })
+	plans["C11"] = &plan{
+		rule:        "seeded programs over two Serializers (the same object in every third program) and a pool of destinations: CompressMode switches between every pair of calls (all 4x4 encoder/decoder mode pairs; Fast first in half of them), Serialize with and without a dst prefix, a truncated blob deserialized in between, destinations reused after larger and smaller documents. Source tapes: parsed, ND-parsed, edited and with deleted members, copy and no-copy; no strings, one string, > 16384 distinct equal-length strings, 30000 duplicate strings, tag and value counts at the 64 Ki flush boundaries +-2, 70000/131072-byte strings, floats with the overflow flag, corpus files. Every deserialized tape is read with AdvanceInto and compared (types and float flags included) with the model; blobs plus canonical typed dumps are handed to a worker built with -tags noasm which must expose identical documents; a slice runs under the race detector. Distinct non-trivial = programs whose documents hold >= 1 string and >= 1 number (by program seed) and blobs verified in the noasm build (by content)",
+		assumptions: commonAssumptions,
+		jobs: func(tier string) []*job {
+			return []*job{
+				{variant: "plain", mode: "main", shards: 12, maxResume: 3},
+				{variant: "plain", mode: "emit", shards: 4, maxResume: 0},
+				{variant: "noasm", mode: "consume", shards: 4, maxResume: 3, stage: 1},
+				{variant: "race", mode: "main", shards: 4, maxResume: 0, gomaxprocs: 4},
+			}
+		},
+		require: func(tier string, c, m map[string]int64, s map[string]map[string]struct{}) []string {
+			var out []string
+			for e := 0; e < 4; e++ {
+				for d := 0; d < 4; d++ {
+					out = append(out, need(c, fmt.Sprintf("pair_enc%d_dec%d", e, d), 20)...)
+				}
+			}
+			out = append(out, need(c, "blobs_verified_in_noasm_build", 200)...)
+			out = append(out, need(c, "source_tapes_with_deletions", 50)...)
+			return out
+		},
+	}
+	plans["C19"] = &plan{
+		rule:        "blobs of all four compression modes from tiny, small, edited (NOP runs), NDJSON and medium documents, mutated by: every truncation, single-bit flips, byte substitution with {0,1,0x7f,0x80,0xff, tag letters}, splices between blobs, random bytes, and framing-preserving structural mutation (the harness parses the container, decompresses each block with the same s2/zstd modules, swaps/deletes/duplicates plain tag bytes, overwrites value words with 0, -1, tape size +-1, 2^56, 2^63..., changes declared sizes, cuts sections, changes block types and version, recompresses and repairs the outer lengths). Each blob is deserialized into a nil destination and into a destination that held a larger document; a panic (recovered or on a library goroutine), a fault, a deadlock or live heap above 1 GiB is a violation; every returned result is swept by all readers under the same rules. Blobs declaring a section above 2 MiB are skipped (allocation carve-out). Distinct non-trivial = mutated blobs that reached the tape-rebuild loop or returned a result, by content hash",
+		assumptions: append([]string{"the harness's own container parser/re-framer is checked at start: re-framed unmutated blobs must deserialize"}, commonAssumptions...),
+		jobs: func(tier string) []*job {
+			return []*job{
+				{variant: "plain", mode: "main", shards: 16, maxResume: 40, memcapMB: 1024},
+			}
+		},
+		require: func(tier string, c, m map[string]int64, s map[string]map[string]struct{}) []string {
+			out := need(c, "reached_tape_rebuild", 5000)
+			return append(out, need(c, "returned_result", 1000)...)
+		},
+	}
 	plans["C10"] = std("documents (strings holding every byte value and every pair of escape-needing bytes, every number kind, the C02 document workload, NDJSON) fresh and after seeded histories of in-place replacements and deletions; marshalled from the root iterator (MarshalJSON and MarshalJSONBuffer with a prefix), from single-value-scoped inner iterators (AdvanceIter / NextElementBytes / FindKey), Array.MarshalJSON and Elements.MarshalJSON. Each output must be valid JSON per the reference recogniser (valid UTF-8, well-formed surrogates, roots separated by LF), denote the model document (strings byte-equal, member order, numbers numerically equal) and be a fixed point of parse+marshal; a non-finite float placed with SetFloat must make every marshaller return an error. Distinct non-trivial = marshalled tapes whose text holds a container or an escape, by (document, edit history) hash", 16,
 		func(c, m map[string]int64) []string {
 			out := need(c, "edited_tapes", 1000)
